@@ -116,7 +116,7 @@ def p2sh_script_sig(sigs: typing.List[bytes], redeem_script: bytes) -> bytes:
     """
     script_sig = [len(sig).to_bytes(1, "little") + sig for sig in sigs]
     script_sig = b"".join(script_sig)
-    script_sig += len(redeem_script).to_bytes(1, "little") + redeem_script
+    script_sig += script([redeem_script.hex()])
     return script_sig
 
 
